@@ -134,6 +134,12 @@ func cmdCheck(args []string) int {
 			for _, f := range j.Flags {
 				a = append(a, "-flag", f)
 			}
+			// Go's append with its aliasing behaviour (in place when the capacity suffices, any
+			// capacity in [needed, needed+6] after growth) in the balancer / interceptor / GCPMultiEndpoint / codec
+			// jobs (the multiendpoint step harness gets 6x slower with it and has no slice reuse to find)
+			if j.Harness == "grpcgcp" || j.Harness == "e2e-checksum" {
+				a = append(a, "-flag", "appendCaps")
+			}
 			if *tier == "thorough" {
 				a = append(a, "-flag", "thorough")
 			}
